@@ -1,7 +1,7 @@
 """C06 — semantic actions receive each rule's AST and their result replaces it."""
 from __future__ import annotations
 
-from ..grammars import A, C, EOF_, N, OPT, P, REP, S, T
+from ..grammars import A, C, EOF_, K, N, OPT, P, REP, S, T
 from ..harness import mktext, skel
 from ..runner import Ob
 
@@ -15,6 +15,9 @@ GRAMMARS = {
     'closure_calls': ([('start', S(REP(C('r')), OPT(T('x')), EOF_)), ('r', A(T('a'), T('b')))], {}, {}),
     'named_rule': ([('start', S(N('l', C('r')), OPT(N('m', C('r'))))), ('r', A(S(T('a'), OPT(T('b'))), T('b')))], {}, {}),
     'nested': ([('start', A(S(C('p'), T('x')), C('p'))), ('p', A(S(C('r'), C('r')), C('r'))), ('r', A(T('a'), T('b')))], {}, {}),
+    # rules whose value is a bare scalar: values that compare equal across types (1 == 1.0 == True, 0.0 == -0.0) must reach the action, and come
+    # back from it, as the objects they are (results are compared type-strictly)
+    'scalars': ([('start', S(REP(C('r')), EOF_)), ('r', A(S(T('i'), K('1')), S(T('f'), K('1.0')), S(T('t'), K('True')), S(T('z'), K('0.0')), S(T('m'), K('-0.0')), S(T('o'), K('0'))))], {}, {}),
 }
 SEMANTICS = ['identity', 'tag', 'fail_b', 'raise_KeyError', 'raise_ValueError', 'raise_IndexError', 'raise_AttributeError', 'raise_TypeError', 'raise_Custom',
              'default_only', 'explicit_params']
@@ -26,6 +29,21 @@ class CustomError(Exception):
 
 
 EXC = {'KeyError': KeyError, 'ValueError': ValueError, 'IndexError': IndexError, 'AttributeError': AttributeError, 'TypeError': TypeError, 'Custom': CustomError}
+
+
+def strict(v):
+    """type-strict form of a result: numbers and booleans carry their type (1, 1.0 and True differ; so do 0.0 and -0.0)"""
+    if isinstance(v, bool):
+        return ('bool', v)
+    if isinstance(v, int) and not isinstance(v, str):
+        return ('int', v)
+    if isinstance(v, float):
+        return ('float', repr(v))
+    if isinstance(v, dict):
+        return {k: strict(x) for k, x in v.items()}
+    if isinstance(v, (list, tuple)):
+        return [strict(x) for x in v]
+    return v
 
 
 def render(rules, params, decorators):
@@ -126,7 +144,7 @@ def make_sem(spec):
     def run_real(parser, t, sem):
         try:
             r = parser.parse(t, **({'semantics': sem} if sem is not None else {}))
-            return (r[0], norm(r[1]) if r[0] == 'ok' else None)
+            return (r[0], strict(norm(r[1])) if r[0] == 'ok' else None)
         except RecursionError:
             return ('recursion', None)
         except Exception as e:  # noqa: BLE001
@@ -135,7 +153,7 @@ def make_sem(spec):
     def run_ref(t, log):
         try:
             v, q = Ref(g, t, actions=ref_actions(kind, log, names)).parse()
-            return ('ok', norm(v))
+            return ('ok', strict(norm(v)))
         except Fail:
             return ('fail', None)
         except Exception as e:  # noqa: BLE001
@@ -168,7 +186,7 @@ def make_sem(spec):
             for rec in log:
                 found = False
                 for f in flog:
-                    if rec[0] == f[0] and rec[2] == f[2] and rec[3] == f[3] and rec[1] == f[1]:
+                    if rec[0] == f[0] and rec[2] == f[2] and rec[3] == f[3] and strict(rec[1]) == strict(f[1]):
                         found = True
                         break
                 if not found:
@@ -192,7 +210,8 @@ def make_sem(spec):
 
     body.explain = explain
     n = spec['n']
-    body.warm = [tuple(map(ord, w)) for w in ['', 'a', 'b', 'ax', 'by', 'bx', 'bz', 'ab', 'ba', 'aax', 'abx', 'bb', 'aab', 'bc', 'abz', 'c', 'aa', 'az', 'bbb', 'aby'] if len(w) == n]
+    body.warm = [tuple(map(ord, w)) for w in ['', 'a', 'b', 'ax', 'by', 'bx', 'bz', 'ab', 'ba', 'aax', 'abx', 'bb', 'aab', 'bc', 'abz', 'c', 'aa', 'az', 'bbb', 'aby',
+                                              'i', 'if', 'ift', 'zm', 'oz', 'tfi', 'mzo', 'fi'] if len(w) == n]
     return body
 
 
@@ -259,13 +278,15 @@ def plan(tier, seed):
         sems = SEMANTICS
         if tier == 'quick':
             sems = {'alt_retry': SEMANTICS[:9], 'params': ['tag', 'explicit_params', 'default_only', 'identity'], 'nomemo': ['tag', 'fail_b', 'raise_KeyError', 'identity'],
-                    'closure_calls': ['tag', 'fail_b', 'raise_TypeError'], 'named_rule': ['tag', 'default_only', 'fail_b'], 'nested': ['tag', 'fail_b', 'raise_KeyError']}[gn]
+                    'closure_calls': ['tag', 'fail_b', 'raise_TypeError'], 'scalars': ['identity', 'tag'], 'named_rule': ['tag', 'default_only', 'fail_b'], 'nested': ['tag', 'fail_b', 'raise_KeyError']}[gn]
         for sk in sems:
             if sk == 'explicit_params' and gn != 'params':
                 continue
             for n in range(0, maxn + 1):
                 if tier == 'quick' and n < 2 and sk not in ('tag', 'fail_b'):
                     continue
+                if tier == 'quick' and gn == 'scalars' and n > 2:
+                    continue        # six alternatives per position: length 3 costs 4 CPU-minutes; 'if' (1 then 1.0 through one action) is a length-2 text
                 obs.append(Ob(name=f'{gn}_{sk}_L{n}', factory='vt.props.c06:make_sem', spec={'grammar': gn, 'semantics': sk, 'n': n},
                               params=[(f'c{i}', 0, UNI) for i in range(n)], budget={0: 40, 1: 40, 2: 90, 3: 400, 4: 2400}[n], group=sk,
                               require_tags=('ok',) if n == 2 and sk in ('tag', 'identity') and gn != 'closure_calls' else ()))
